@@ -164,4 +164,15 @@ PROPS = {
         "assumes": ["application connections follow SQLite's locking protocol (which locks a reader/writer holds)"],
         "trusted_base": ["Model/Locks.v hand-written over Gen/RWMutexGen.v; tie = cases_c11_*.v"],
     },
+    "C19": {
+        "gen": [], "props_file": "Props/C19.v", "coq_targets": ["Props/C19.v"],
+        "level_text": "Proof (full on the decision function): for every request, role and every sequence of positions the poll loop can observe, a read with a non-zero cookie and the tracked database present is forwarded only at an observation that has reached the cookie, else it ends in a gateway time-out; a write or always-forward request on a node that is not primary is answered with a replay or 503 and never forwarded unless the path is a passthrough; the cookie after a write on the primary is the position read after the application answered; reads without a usable cookie are forwarded at once (Props/C19.v). "
+                      "Tie: the real ProxyServer in front of a stub application on a loopback cluster (primary, connected replica, node with no primary): cross product method x path class x cookie class x role x database present, plus requests whose awaited transaction replicates while the proxy polls; the stub records the database position at arrival.",
+        "level_note": "Trusted: Coq kernel, harness. Modelled not verified: http/proxy_server.go text; wall-clock poll spacing and time-outs are runtime behaviour (a slow replication within the poll window is recorded, not failed).",
+        "technique": "Coq proof over the decision function with an arbitrary observation sequence + vm_compute correspondence + arrival-position oracle",
+        "rule": "3 roles x 6 methods x 4 path classes x 6 cookie classes x database present/absent (one third sampled in quick, all in thorough) + timing cases; distinct = request class; non-trivial = the response, the arrival at the stub and its recorded position were compared",
+        "explanation": "Decision theorems for all inputs; the cross product ties them to the server.",
+        "assumes": ["positions on a primary never decrease", "a local commit completes before the triggering file operation returns (C02/C03)"],
+        "trusted_base": ["Model/Proxy.v hand-written; tie = cases_c19_*.v"],
+    },
 }
